@@ -463,7 +463,7 @@ def main(tier, seed):
       base = explore.pmap('vt.checks.c08', 'run_one', [(params, {})], pool, seed)[0]
       n_io = base['io_before_probe']
       rep.add_violations(base['viol'])
-      singles = [((i, k),) for i in range(n_io) for k in KINDS + (['refusal'] if base['io_trace'][i][1] == 'connect' else [])]
+      singles = [((i, k),) for i in range(n_io) for k in KINDS + (['refusal', 'timeout-noerrno'] if base['io_trace'][i][1] == 'connect' else [])]
       faults = list(singles)
       # pairs of faults (the second index may address an I/O call that only exists after the first fault, e.g. a reconnect)
       for i in range(n_io):
@@ -487,7 +487,7 @@ def main(tier, seed):
           rep.add_violations(r['viol'])
       total += n
       rep.part(name, engine='fault enumeration', io_calls=n_io, executions=n, io_trace=[op for (_, op) in base['io_trace']][:60],
-               fault_kinds=KINDS + ['refusal (connects)'], pairs=True, triples=(tier == 'thorough'))
+               fault_kinds=KINDS + ['refusal, timeout with errno None (connects)'], pairs=True, triples=(tier == 'thorough'))
       rep.sample({'script': name, 'fault_free_outcome': base['outcome']})
   finally:
     pool.close()
